@@ -116,7 +116,9 @@ def helperOracle (hname : String) (opT : Tree) (ack : Bool) (t0 : Int) (wire : B
       | .compressed .. | .compressedBytes .. => gzok == some "true0" && (gunzip.bind parseHex) == payload
       | _ => true
     (if want == some wire then [] else [s!"C02 {hname}: the wire does not carry the mode and contents the helper names (model {(want.map toHex).getD "encoder-error"})",
-        s!"C09 {hname} returned nil but the bytes on the wire are not the encoding of its message"]) ++
+        s!"C09 {hname} returned nil but the bytes on the wire are not the encoding of its message",
+        s!"C01 {hname}: what the peer decodes from the wire is not the message the caller handed over",
+        s!"C03 {hname}: the message on the wire does not carry the helper's stream with its size / compressed options"]) ++
     (if stampOk then [] else [s!"C02 {hname} is not stamped with the time of the call"]) ++
     (if !ack || wellFormedChunkID id then [] else [s!"C12 {hname}: chunk id on the wire is not a well-formed generated id"]) ++
     (if gz then [] else ["C03 helper stream is not one complete gzip member of exactly the given entries",
